@@ -28,8 +28,8 @@ EXPLANATION = ('Decides for all inputs the algebraic and guard clauses of lerp /
                'certifies the arccos / SSE2 sine polynomials within 1e-6 / 2e-6 by interval analysis.  Angle error near the parallel thresholds is not decided.')
 LEVEL_NOTE = 'Decides the formulas, guards and approximation certificates listed; end-to-end angle error near the degenerate thresholds is not claimed. Trusted: rustc MIR, intrinsic table, IEEE-exact rewrites x*1=x, x+0=x, x*0=0 for finite x.'
 
-CONFIGS_QUICK = ['sse2', 'sse2-fma', 'sse41', 'scalar', 'coresimd', 'libm', 'neon', 'wasm32']
-CONFIGS_THOROUGH = ['sse2', 'sse2-fma', 'sse41', 'scalar', 'coresimd', 'libm', 'neon', 'wasm32']
+CONFIGS_QUICK = ['sse2', 'sse2-fma', 'sse41', 'fastmath', 'scalar', 'coresimd', 'libm', 'neon', 'wasm32']
+CONFIGS_THOROUGH = ['sse2', 'sse2-fma', 'sse41', 'fastmath', 'scalar', 'coresimd', 'libm', 'neon', 'wasm32']
 FLOAT_TYPES = {'Vec2': 'f32', 'Vec3': 'f32', 'Vec3A': 'f32', 'Vec4': 'f32', 'DVec2': 'f64', 'DVec3': 'f64', 'DVec4': 'f64'}
 
 
